@@ -433,8 +433,12 @@ static void check_eigen(SymCase& C, unsigned n, uint64_t index)
 	{
 		std::vector<double> a = from_lib(evec[k]), b = from_lib(es.second[k]);
 		same = a.size() == b.size();
+		// the same direction: the overall sign of an eigenvector is arbitrary, and two valid unit eigenvectors of a simple eigenvalue differ by
+		// rounding errors divided by the relative gap of the spectrum
+		double dm = 0, dp = 0;
 		for(unsigned i = 0; same && i < a.size(); i++)
-			same = std::fabs(a[i] - b[i]) <= 1e-12;
+			dm = std::max(dm, std::fabs(a[i] - b[i])), dp = std::max(dp, std::fabs(a[i] + b[i]));
+		same = same && std::min(dm, dp) <= 1e-9;
 	}
 	require("eigenvectors-equals-eigensystem-second", same, [&] { return mat_json(C.S, C.kind); });
 	if(index % 1999 == 0)
